@@ -7591,6 +7591,12 @@ static int32 writeCertificateRequest(ssl_t *ssl, sslBuf_t *out, int32 certLen,
         *c = (certLen + (certCount * 2)) & 0xFF; c++;
         while (cert)
         {
+            if (cert->parseStatus != PS_X509_PARSE_SUCCESS)
+            {
+                /* Not counted in certLen/certCount either */
+                cert = cert->next;
+                continue;
+            }
             if (cert->subject.dnenc == NULL)
             {
                 return PS_FAIL;
